@@ -2,12 +2,12 @@
 
 def me(rule):
     return dict(module='grpcgcp', pkg='grpcgcp/multiendpoint', harness='multiendpoint',
-                instrument=[{'pkg': 'grpcgcp/multiendpoint'}], level='model_checking',
+                instrument=[{'pkg': 'grpcgcp/multiendpoint', 'access': True}], level='model_checking',
                 workers={'quick': 16, 'thorough': 16}, deadline_s={'quick': 240, 'thorough': 1500}, rule=rule)
 
 def pool(rule):
     return dict(module='grpcgcp', pkg='grpcgcp', harness='grpcgcp',
-                instrument=[{'pkg': 'grpcgcp', 'vgrpc': 'gcp_multiendpoint.go'}, {'pkg': 'grpcgcp/multiendpoint'}], level='model_checking',
+                instrument=[{'pkg': 'grpcgcp', 'vgrpc': 'gcp_multiendpoint.go', 'access': True}, {'pkg': 'grpcgcp/multiendpoint', 'access': True}], level='model_checking',
                 workers={'quick': 16, 'thorough': 16}, deadline_s={'quick': 240, 'thorough': 1500}, rule=rule)
 
 CHECKS = {
